@@ -27,8 +27,8 @@ RULE = ("operation histories over {construct, set argvals / values / argvals_sta
         "additionally leave the very same attribute objects in place. Non-trivial = a history with at least one accepted and "
         "one state-changing step; distinct by the operation list.")
 ASSUME = ["abstract state = shapes, labels and identity tokens only (no numbers); float contents are irrelevant to C11",
-          "remove() is only issued when every comparison the list scan performs is between dense objects of equal shape or hits "
-          "identity first (totality of == is property C12, finding F8)",
+          "remove() is only issued when every comparison the list scan performs is between pool objects (pairwise unequal by "
+          "construction) that are dense and of equal shape, or hits identity first; value equality and its totality are property C12 (F8)",
           "components of a multivariate object are not mutated while they are members (the class has no back-pointer; outside the "
           "operation alphabet of the property)",
           "empty irregular selections, cross-kind argvals_stand, item assignment inside an Argvals/Values dictionary are not generated"]
@@ -377,6 +377,8 @@ def remove_is_safe(cur, tok):
     for el in cur.data:
         if el is item:
             return True
+        if id(el) not in _TOK_OF:
+            return False        # a derived (anonymous) component may be VALUE-equal to a pool object; == is C12's subject
         if not (isinstance(el, DenseFunctionalData) and isinstance(item, DenseFunctionalData)
                 and el.values.shape == item.values.shape):
             return False
